@@ -119,11 +119,14 @@ pub fn run_scenario(p: &RunParams) {
     let epoch = Arc::new(AtomicBool::new(false));
     let mut blocks: Vec<Box<dyn Block + Send>> = Vec::new();
     let mut counters = Vec::new();
+    let alive = Arc::new(AtomicUsize::new(0));
     let wrap = |b: Box<dyn Block + Send>, idx: usize, counters: &mut Vec<(Arc<AtomicUsize>, Arc<AtomicUsize>)>| -> Box<dyn Block + Send> {
         let calls = Arc::new(AtomicUsize::new(0));
         let late = Arc::new(AtomicUsize::new(0));
         counters.push((calls.clone(), late.clone()));
+        alive.fetch_add(1, Ordering::SeqCst);
         Box::new(Instrumented {
+            alive: alive.clone(),
             inner: b,
             calls,
             late_calls: late,
@@ -147,8 +150,15 @@ pub fn run_scenario(p: &RunParams) {
     };
     let (a, prev) = AddConst::new(prev, T2::from(1));
     blocks.push(wrap(Box::new(a), 1, &mut counters));
-    let sink = NullSink::new(prev);
-    blocks.push(wrap(Box::new(sink), 2, &mut counters));
+    // "cancel-held": the last output is not connected to a block; the
+    // application holds it and does not read, so it fills up and never closes.
+    let mut held = None;
+    if p.kind == "cancel-held" {
+        held = Some(prev);
+    } else {
+        let sink = NullSink::new(prev);
+        blocks.push(wrap(Box::new(sink), 2, &mut counters));
+    }
 
     let returned = Arc::new(AtomicBool::new(false));
     if p.runner == "mt" {
@@ -156,14 +166,15 @@ pub fn run_scenario(p: &RunParams) {
         for b in blocks {
             graph.add(b);
         }
-        run_and_judge(p, &mut graph, epoch.clone(), returned, &counters);
+        run_and_judge(p, &mut graph, epoch.clone(), returned, &counters, Some(alive.clone()));
     } else {
         let mut graph = Graph::new();
         for b in blocks {
             graph.add(b);
         }
-        run_and_judge(p, &mut graph, epoch.clone(), returned, &counters);
+        run_and_judge(p, &mut graph, epoch.clone(), returned, &counters, None);
     }
+    drop(held);
     finish(clock);
 }
 
@@ -173,9 +184,10 @@ fn run_and_judge<G: GraphRunner>(
     epoch: Arc<AtomicBool>,
     returned: Arc<AtomicBool>,
     counters: &[(Arc<AtomicUsize>, Arc<AtomicUsize>)],
+    alive: Option<Arc<AtomicUsize>>,
 ) {
     let mut canceller = None;
-    if p.kind == "cancel" || p.kind == "failcancel" {
+    if p.kind.starts_with("cancel") || p.kind == "failcancel" {
         let token = graph.cancel_token();
         if p.cancel_early {
             token.cancel();
@@ -183,10 +195,19 @@ fn run_and_judge<G: GraphRunner>(
         } else {
             let ep = epoch.clone();
             let ret = returned.clone();
+            let park_first = p.kind == "cancel-held";
             canceller = Some(thread::spawn(move || {
                 // The scheduler decides when this runs: between any two steps
                 // of any block thread.
                 thread::yield_now();
+                if park_first {
+                    // Let (virtual) time pass first: by default the clock
+                    // wakes this thread once every block thread is parked in
+                    // a wait, which is the situation this scenario is about.
+                    let m = rustradio::vsync::Mutex::new(());
+                    let cv = rustradio::vsync::Condvar::new();
+                    let _ = cv.wait_timeout_while(m.lock().unwrap(), std::time::Duration::from_secs(1), |_| true);
+                }
                 token.cancel();
                 ep.store(true, Ordering::SeqCst);
                 PROGRESS.fetch_add(1, Ordering::SeqCst);
@@ -199,10 +220,22 @@ fn run_and_judge<G: GraphRunner>(
     if let Some(c) = canceller {
         let _ = c.join();
     }
+    // The multithreaded runner hands each block to its thread: a block that
+    // still exists when run() has returned is a block thread that has not
+    // finished.
+    if let (Some(a), false) = (&alive, r.is_err()) {
+        let n = a.load(Ordering::SeqCst);
+        if n != 0 {
+            violate(
+                "threads-alive-after-return",
+                format!("run() returned while {n} block thread(s) had not finished"),
+            );
+        }
+    }
     match (p.kind.as_str(), r) {
         (_, Err(pn)) => violate("run-panicked", format!("run() panicked: {pn}")),
-        ("cancel", Ok(Err(e))) => violate("run-failed", format!("run() returned an error after cancellation: {e}")),
-        ("cancel", Ok(Ok(()))) => {
+        ("cancel" | "cancel-held", Ok(Err(e))) => violate("run-failed", format!("run() returned an error after cancellation: {e}")),
+        ("cancel" | "cancel-held", Ok(Ok(()))) => {
             for (i, (_, late)) in counters.iter().enumerate() {
                 let l = late.load(Ordering::SeqCst);
                 if l > 2 {
